@@ -6,6 +6,7 @@ package absnfs
 import (
 	"io"
 	"net"
+	"sync"
 	"time"
 )
 
@@ -15,6 +16,7 @@ func init() {
 }
 
 type vpConn struct {
+	mu     sync.Mutex // the native replay serves the connection from another goroutine (C28)
 	in     []byte
 	pos    int
 	out    []byte
@@ -23,6 +25,8 @@ type vpConn struct {
 }
 
 func (c *vpConn) Read(p []byte) (int, error) {
+	c.mu.Lock()
+	defer c.mu.Unlock()
 	if c.pos >= len(c.in) {
 		return 0, io.EOF
 	}
@@ -30,8 +34,25 @@ func (c *vpConn) Read(p []byte) (int, error) {
 	c.pos += n
 	return n, nil
 }
-func (c *vpConn) Write(p []byte) (int, error)        { c.out = append(c.out, p...); return len(p), nil }
-func (c *vpConn) Close() error                       { c.closed++; return nil }
+func (c *vpConn) Write(p []byte) (int, error) {
+	c.mu.Lock()
+	defer c.mu.Unlock()
+	c.out = append(c.out, p...)
+	return len(p), nil
+}
+func (c *vpConn) Close() error {
+	c.mu.Lock()
+	defer c.mu.Unlock()
+	c.closed++
+	return nil
+}
+
+// served reports whether the server has closed the connection, and what it wrote.
+func (c *vpConn) served() (bool, []byte) {
+	c.mu.Lock()
+	defer c.mu.Unlock()
+	return c.closed > 0, append([]byte(nil), c.out...)
+}
 func (c *vpConn) LocalAddr() net.Addr                { return vpAddr{"127.0.0.1:2049"} }
 func (c *vpConn) RemoteAddr() net.Addr               { return vpAddr{c.remote} }
 func (c *vpConn) SetDeadline(t time.Time) error      { return nil }
